@@ -4,7 +4,7 @@
     (faithful SplitAt bookkeeping on polylines), Split/Cert.v (sub-curve checker, length enclosures). *)
 From Coq Require Import ZArith QArith List Bool.
 From CV Require Import Geom.Winding.
-From CV Require Import PathEnc.Enc Geom.Matrix Geom.Bezier Split.Reverse Split.SplitAt Split.Cert Split.ReverseProofs Split.SplitProofs.
+From CV Require Import PathEnc.Enc Geom.Matrix Geom.Bezier Split.Reverse Split.SplitAt Split.Cert Split.ReverseProofs Split.ReverseClosed Split.SplitProofs.
 Import ListNotations.
 Open Scope Q_scope.
 
@@ -37,8 +37,10 @@ Print Assumptions C09_reverse_closed_polygon.
 (** reverse_involutive — PARTIAL: proved for closed polygons in the documented normal form (first edge and closing edge
     of positive length).  Full statement: reverse (reverse p) = nf p for every well-formed p (nf: a LineTo back to the
     start followed by a zero-length Close is a Close), and reverse (reverse (reverse p)) = reverse p.  Open subpaths with
-    curves are now FULL (C09_reverse_involutive_open_subpaths below).  Missing: closed subpaths with curves (the first record
-    being a curve, a LineTo back to the start before the Close); they are checked on every run (flag 32 of the judge: nf(RR) = nf(p) and RRR = R on the Go output). *)
+    curves are now FULL (C09_reverse_involutive_open_subpaths below).  Closed subpaths with
+    curves in normal form are FULL as well (C09_reverse_involutive_closed).  Missing: the normal-form map nf itself (a LineTo back
+    to the start followed by a zero-length Close) and paths mixing open and closed subpaths (C09_reverse_subpaths covers the
+    subpath order for those); they are checked on every run (flag 32 of the judge: nf(RR) = nf(p) and RRR = R on the Go output). *)
 Theorem C09_reverse_involutive_partial : forall p0 p1 ps,
   pt_eqb p0 (last (p1 :: ps) p0) = false -> pt_eqb p0 p1 = false ->
   reverse (reverse (SM p0 :: lines (p1 :: ps) ++ [SZ p0])) = SM p0 :: lines (p1 :: ps) ++ [SZ p0].
@@ -56,6 +58,25 @@ Print Assumptions C09_reverse_involutive_open_subpaths.
 Theorem C09_reverse_open_subpaths_each : forall l, Forall osub_ok l -> reverse (flat l) = flat (rev (map rsub l)).
 Proof. exact reverse_flat. Qed.
 Print Assumptions C09_reverse_open_subpaths_each.
+
+(** reverse_closed / reverse_involutive — FULL for a CLOSED subpath with any segment types in normal form (the closing segment has
+    positive length; a first LineTo has positive length): Reverse starts at the same point, runs the closing segment backwards
+    first, then the records in reverse order; a first LineTo becomes the Close, a first curve is followed by a zero-length Close;
+    reversing twice gives the subpath back record for record. *)
+Theorem C09_reverse_closed_general : forall p0 f rest, all_draw (f :: rest) ->
+  pt_eqb p0 (end_of (f :: rest) p0) = false ->
+  reverse (SM p0 :: (f :: rest) ++ [SZ p0]) =
+  SM p0 :: SL (end_of (f :: rest) p0) ::
+    (if is_line f then rev_spec (rev rest) (seg_end f) else rev_spec (rev (f :: rest)) p0) ++ [SZ p0].
+Proof. exact reverse_closed_general. Qed.
+Print Assumptions C09_reverse_closed_general.
+
+Theorem C09_reverse_involutive_closed : forall p0 f rest, all_draw (f :: rest) -> flags_ok (f :: rest) ->
+  pt_eqb p0 (end_of (f :: rest) p0) = false ->
+  (is_line f = true -> pt_eqb p0 (seg_end f) = false) ->
+  reverse (reverse (SM p0 :: (f :: rest) ++ [SZ p0])) = SM p0 :: (f :: rest) ++ [SZ p0].
+Proof. exact reverse_involutive_closed. Qed.
+Print Assumptions C09_reverse_involutive_closed.
 
 Theorem C09_flip_sweep_involutive : forall fl, In fl [0; 1; 2 # 1; 3 # 1] -> flip_sweep (flip_sweep fl) = fl.
 Proof. exact flip_sweep_invol. Qed.
